@@ -97,6 +97,7 @@ type Fn struct {
 	Call       func(form int, a []interface{}) []interface{}
 	MkCb       func(rec *Rec) interface{}
 	MkOriginCb func(rec *Rec) interface{}
+	Leaf       int // k+1 for leaf function k (no counter, reference = fn.LeafRef), 0 otherwise
 }
 
 // Funcs is the registry, in global index order.
